@@ -82,6 +82,7 @@ func vpH_C16_validation() {
 	vpAssume(vpAnd(cfg.Priority >= -1000000, cfg.Priority <= 1000000))
 	vpAssume(vpAnd(cfg.MaxConsecutiveFailures >= -1000000, cfg.MaxConsecutiveFailures <= 1000000))
 	documented := vpDocumentedValid(cfg)
+	vpSetOpt("float-rounding", 1) // validation written with float64 arithmetic would be subject to rounding
 	p := &vpRecProvider{}
 	e, err := NewElection(p, cfg)
 	if err == nil {
